@@ -394,7 +394,14 @@ def _typeset_options(h):
         if sm:
             with_g, without_g = sm.group(2), sm.group(1)
         else:
-            sm = re.search(r"if\s+global_option_index\s*\.\s*is_some\(\)\s*\{\s*Scope::(\w+)\s*\}\s*else\s*\{\s*Scope::(\w+)\s*\}", body)
+            sm = re.search(r"if\s+(?:global_option_index\s*\.\s*is_some\(\)|let\s+Some\(\s*_\w*\s*\)\s*=\s*global_option_index)\s*\{\s*Scope::(\w+)\s*\}\s*else\s*\{\s*Scope::(\w+)\s*\}", body)
+            if not sm:
+                sm2 = re.search(r"if\s+global_option_index\s*\.\s*is_none\(\)\s*\{\s*Scope::(\w+)\s*\}\s*else\s*\{\s*Scope::(\w+)\s*\}", body)
+                if sm2:
+                    class _M:  # the branches swapped
+                        def group(self, i, a=sm2.group(2), b=sm2.group(1)):
+                            return a if i == 1 else b
+                    sm = _M()
             if not sm:
                 h.fail("variable: typeset/syntax.rs interpret: the choice of Scope from global_option_index has a shape I do not understand")
             with_g, without_g = sm.group(1), sm.group(2)
@@ -441,24 +448,60 @@ def _set_variables(h):
         h.fail("variable: set_variables.rs execute: the field loop is not labelled 'field")
     mb = h.item_body(body, r"match\s*\(\s*attr\s*,\s*state\s*\)\s*", "set_variables.rs execute: match (attr, state)")
     arms = []
+    seen = set()
+
+    def eval_state_expr(expr, var, on):
+        """value of a boolean expression over the bound state variable `var` when it is On (`on`) / Off"""
+        e = expr
+        if e in ("true", "false"):
+            return e == "true"
+        if var is None:
+            return None
+        for rx, f in ((r"%s==State::(On|Off)" % var, lambda st: (st == "On") == on),
+                      (r"State::(On|Off)==%s" % var, lambda st: (st == "On") == on),
+                      (r"%s!=State::(On|Off)" % var, lambda st: (st == "On") != on),
+                      (r"State::(On|Off)!=%s" % var, lambda st: (st == "On") != on),
+                      (r"matches!\(%s,State::(On|Off)\)" % var, lambda st: (st == "On") == on),
+                      (r"!matches!\(%s,State::(On|Off)\)" % var, lambda st: (st == "On") != on)):
+            m_ = re.fullmatch(rx, e)
+            if m_:
+                return f(m_.group(1))
+        return None
+
     for pat, rhs in _match_arms(h, mb, "set_variables.rs execute: match (attr, state)"):
-        pm = re.fullmatch(r"\(\s*VariableAttr::(\w+)\s*,\s*State::(On|Off)\s*\)", pat)
+        pm = re.fullmatch(r"\(\s*VariableAttr::(\w+)\s*,\s*(?:State::(On|Off)|(\w+))\s*\)", pat)
         if not pm:
             h.fail(f"variable: set_variables.rs execute: pattern {pat!r} not understood")
+        attr = pm.group(1)
+        if pm.group(2):
+            alts, var = [pm.group(2) == "On"], None
+        else:
+            # a binding (or `_`): every state no earlier arm of this attribute has taken, evaluated per alternative
+            var = None if pm.group(3) == "_" else pm.group(3)
+            alts = [on for on in (True, False) if (attr, on) not in seen]
+            if not alts:
+                h.fail(f"variable: set_variables.rs execute: arm {pat!r} is unreachable")
         r = re.sub(r"\s+", "", rhs)
-        kinds = []
-        if "make_read_only(" in r:
-            kinds.append("make_read_only")
-        if re.search(r"\.export\(true\)", r):
-            kinds.append("export_true")
-        if re.search(r"\.export\(false\)", r):
-            kinds.append("export_false")
-        if re.search(r"ifletSome\(\w+\)=variable\.read_only_location", r) and "errors.push(" in r and "continue'field" in r \
-                and "make_read_only(" not in r:
-            kinds.append("refuse_if_read_only")
-        if len(kinds) != 1:
-            h.fail(f"variable: set_variables.rs execute: arm {pat!r}: actions {kinds} (expected exactly one I know)")
-        arms.append((pm.group(1), pm.group(2) == "On", kinds[0]))
+        for on in alts:
+            kinds = []
+            if "make_read_only(" in r:
+                kinds.append("make_read_only")
+            for em in re.finditer(r"\.export\(((?:[^()]|\([^()]*\))*)\)", r):
+                val = eval_state_expr(em.group(1), var, on)
+                if val is None:
+                    h.fail(f"variable: set_variables.rs execute: arm {pat!r}: cannot evaluate export({em.group(1)}) "
+                           f"for state {'On' if on else 'Off'}")
+                kinds.append("export_true" if val else "export_false")
+            if re.search(r"ifletSome\(\w+\)=variable\.read_only_location", r) and "errors.push(" in r and "continue'field" in r \
+                    and "make_read_only(" not in r:
+                kinds.append("refuse_if_read_only")
+            if len(kinds) != 1 or (var is not None and kinds[0] in ("make_read_only", "refuse_if_read_only")
+                                   and len(alts) > 1):
+                h.fail(f"variable: set_variables.rs execute: arm {pat!r}: actions {kinds} (expected exactly one I know)")
+            if (attr, on) in seen:
+                continue  # an earlier arm matches first
+            seen.add((attr, on))
+            arms.append((attr, on, kinds[0]))
     arms.sort()
     if len({(a, s) for a, s, _ in arms}) != len(arms):
         h.fail("variable: set_variables.rs execute: two arms for one (attr, state)")
